@@ -2,9 +2,12 @@
 
 mod bridge;
 mod c03;
+mod c04;
 mod engine;
+mod refdiff;
 mod refmap;
 mod rng;
+mod simdir;
 mod simio;
 
 use engine::{Engine, Opts, Tier};
@@ -57,6 +60,7 @@ fn drive<E: Engine>(e: &E, a: &Args, digest_only: bool) -> i32 {
 fn dispatch(a: &Args, digest_only: bool) -> i32 {
     match a.id.as_str() {
         "C03" => drive(&c03::C03, a, digest_only),
+        "C04" => drive(&c04::C04, a, digest_only),
         other => {
             eprintln!("harness error: no engine for {other}");
             2
